@@ -211,15 +211,13 @@ r_raw.NAME = 'R-RAW(validation before mutation)'
 
 
 # -------------------------------------------------------- guards still there
+# (the argument checks of find_or_add and swap are decided by R-ACCEPT,
+# which interprets them, not by the names they mention)
 GUARDS = [
     # (function, argument that must be rejected when invalid,
     #  what the rejecting test has to mention, call it must precede)
     ('dd.bdd.BDD.var', 'var', ['self.vars'], 'find_or_add'),
     ('dd.bdd.BDD.cofactor', 'u', ['self'], '_cofactor'),
-    ('dd.bdd.BDD.find_or_add', 'i', ['0'], None),
-    ('dd.bdd.BDD.find_or_add', 'i', ['len(self.vars)'], None),
-    ('dd.bdd.BDD.find_or_add', 'v', ['self'], None),
-    ('dd.bdd.BDD.find_or_add', 'w', ['self'], None),
     ('dd.bdd.BDD.apply', 'u', ['self'], 'ite'),
     ('dd.bdd.BDD.apply', 'v', ['self'], 'ite'),
     ('dd.bdd.BDD.apply', 'w', ['self'], 'ite'),
@@ -231,9 +229,6 @@ GUARDS = [
     # (no ordering against incref: incref of an unknown node raises
     # KeyError itself before it writes, see infeasible_after_incref)
     ('dd.autoref.Function.__init__', 'node', ['bdd'], None),
-    ('dd.bdd.BDD.swap', 'x', ['len(self.vars)'], 'find_or_add'),
-    ('dd.bdd.BDD.swap', 'y', ['len(self.vars)'], 'find_or_add'),
-    ('dd.bdd.BDD.swap', 'x', ['y', '1'], 'find_or_add'),
 ]
 
 
@@ -321,7 +316,7 @@ def r_guards(P, R):
                 'without the `not in self` check: a Function of another '
                 'manager is silently used as a node number of this one',
                 unit=f.unit.rel, line=f.lineno)
-    R.floor('R-RAW guards present', n, 25)
+    R.floor('R-RAW guards present', n, 18)
 r_guards.NAME = 'R-RAW(guards present)'
 
 
